@@ -4,12 +4,13 @@ from common import Case, enc, dec
 import vgen
 
 PID = "C06"
-RULE = ("candidate lists of 2-5 names (same and different bases, tied versions such as 1.0/1.0.0/1_0/1pl0, nb revisions, "
+RULE = ("candidate lists of 2-5 names (same and different bases, tied versions such as 1.0/1.0.0/1_0/1pl0, nb revisions incl. repeated and digit-less nb, candidates without any '-', "
         "non-matching names) against glob/dewey/alternate/plain patterns; every ordered pair is asked through best_match and "
         "compared with the model; all permutations (<= 4 candidates) and random reduction trees are folded over the "
         "implementation's own pairwise answers; non-trivial = at least two candidates match the pattern")
 FUNCTIONAL = True
-TIES = ["1.0", "1.0.0", "1_0", "1pl0", "1.0pl", "1.", "1", "1.0nb0", "01.0", "1.0nb1", "1.0.0nb1", "1.0alpha", "1.0ALPHA", "1.0rc1", "1.0pre1", "2", "0.9", "1a", "1A", "1_a"]
+TIES = ["1.0", "1.0.0", "1_0", "1pl0", "1.0pl", "1.", "1", "1.0nb0", "01.0", "1.0nb1", "1.0.0nb1", "1.0alpha", "1.0ALPHA", "1.0rc1", "1.0pre1", "2", "0.9", "1a", "1A", "1_a",
+        "1nb3nb", "1nb1", "1nb2nb0", "1.0nb2nb", "1nbnb4", "1nb0nb", "0", "", "0alpha1", "alpha"]
 
 
 def generate(rng, tier):
@@ -32,6 +33,10 @@ def generate(rng, tier):
             hb = rng.sample(["foo-b", "foo-a", "x-9", "x-1", "p5-DBD-mysql", "p5-DBD-MariaDB", "lib-alpha", "lib-beta", "a-2.0", "a-1"], 3)
             pat = rng.choice(["*", "{" + ",".join(hb) + "}-[0-9]*", "*-[0-9]*"])
             cands = [rng.choice(hb) + "-" + rng.choice(["1.0", "2.0", "1.0nb1", "1.5", "0.9", "3"]) for _ in range(k)]
+        elif rng.random() < 0.2:
+            # candidates without any '-' (only glob, alternate and plain patterns can match them): the version is empty
+            pat = rng.choice(["pkg*", "*", "{zlib,zlib-[0-9]*}", "{pkg1,pkg2,pkg-[0-9]*}", "?*"])
+            cands = [rng.choice(["pkg1", "pkg2", "pkg", "zlib", "zlib-0.1", "pkg-1", "pkg-0", "pkg-", "-1", "z"]) for _ in range(k)]
         for i, a in enumerate(cands):
             for j, b in enumerate(cands):
                 cases.append(Case("pat.best", [enc(pat), enc(a), enc(b)], meta={"group": g, "i": i, "j": j, "cands": cands, "pat": pat}))
